@@ -68,4 +68,32 @@ theorem blockLoop_progress (sub : List TK → List TK) (hs : NoUnread sub) (f : 
       all_goals (simp only [blockLoop]; exact other _)
 
 
+theorem memberLoop_progress (sub : List TK → List TK) (hs : NoUnread sub) (f : Nat) (ts : List TK)
+    (h : ts.length < f) : memberLoop sub f ts ≠ none := by
+  induction f generalizing ts with
+  | zero => omega
+  | succ f ih =>
+    have hflag : memberConsumesKeyword = true := by decide
+    cases ts with
+    | nil => simp [memberLoop]
+    | cons t rest =>
+      have hr : rest.length < f := by simp only [List.length_cons] at h; omega
+      cases t <;> simp only [memberLoop, consumeIf, hflag, if_true, List.tail_cons, ne_eq, reduceCtorEq,
+        not_false_eq_true]
+      exact ih (sub rest) (by have := hs rest; omega)
+
+theorem matchLoop_progress (sub : List TK → List TK) (hs : NoUnread sub) (f : Nat) (ts : List TK)
+    (h : ts.length < f) : matchLoop sub f ts ≠ none := by
+  induction f generalizing ts with
+  | zero => omega
+  | succ f ih =>
+    have hflag : matchArmConsumesStart = true := by decide
+    cases ts with
+    | nil => simp [matchLoop]
+    | cons t rest =>
+      have hr : rest.length < f := by simp only [List.length_cons] at h; omega
+      cases t <;> simp only [matchLoop, consumeIf, hflag, if_true, List.tail_cons, ne_eq, reduceCtorEq,
+        not_false_eq_true]
+      exact ih (sub rest) (by have := hs rest; omega)
+
 end SamVerif.ParserLoops
